@@ -392,7 +392,9 @@ pub fn resolve_inputs(spec: &str, seed: u64) -> Vec<Input> {
                 out.extend(custom_name_inputs());
             }
             "customname" => out.extend(custom_name_inputs()),
+            "endcheck" => out.extend(end_check_inputs()),
             "fixtures-all" => {
+                out.extend(end_check_inputs());
                 out.extend(fixture_inputs());
                 out.extend(offset_inputs());
                 out.extend(nocode_inputs());
@@ -1450,6 +1452,37 @@ pub fn custom_name_inputs() -> Vec<Input> {
     }
     }
     out
+}
+
+/// modules that only the validator's end-of-module check rejects: a function section without a code section, a data count
+/// that the data section does not honour
+pub fn end_check_inputs() -> Vec<Input> {
+    use wasm_encoder as we;
+    let mut out = vec![];
+    let mut m = we::Module::new();
+    let mut t = we::TypeSection::new();
+    t.function([], []);
+    m.section(&t);
+    let mut f = we::FunctionSection::new();
+    f.function(0);
+    m.section(&f);
+    out.push(("nocode", m.finish()));
+    for (tag, count, segs) in [("count2-data1", 2u32, 1usize), ("count0-data1", 0, 1), ("count1-nodata", 1, 0)] {
+        let mut m = we::Module::new();
+        let mut mem = we::MemorySection::new();
+        mem.memory(we::MemoryType { minimum: 1, maximum: None, memory64: false, shared: false, page_size_log2: None });
+        m.section(&mem);
+        m.section(&we::DataCountSection { count });
+        if segs > 0 {
+            let mut d = we::DataSection::new();
+            for _ in 0..segs {
+                d.passive([1u8, 2, 3]);
+            }
+            m.section(&d);
+        }
+        out.push((tag, m.finish()));
+    }
+    out.into_iter().map(|(tag, bytes)| Input { id: format!("endcheck-{}", tag), bytes, source: format!("endcheck:{}", tag) }).collect()
 }
 
 pub fn nocode_inputs() -> Vec<Input> {
